@@ -213,12 +213,6 @@ Proof.
 Qed.
 
 (* the executable set-algebra specification and uniqueness of the result *)
-Definition set_ok_union (has more out : list string) : bool :=
-  ssorted out && forallb (fun x => smem x out) (has ++ more) && forallb (fun x => smem x has || smem x more) out.
-Definition set_ok_diff (has rm out : list string) : bool :=
-  ssorted out && forallb (fun x => smem x rm || smem x out) has
-  && forallb (fun x => smem x has && negb (smem x rm)) out.
-
 Lemma set_ok_union_iff has more out : ssorted has = true ->
   (set_ok_union has more out = true <-> out = trait_union has more).
 Proof.
